@@ -157,3 +157,81 @@ let blkrecv toks =
   | _ -> failwith "blkrecv args"
 
 let () = register "blkwire" blkwire; register "blkrecv" blkrecv
+
+(* ---- scripted peer (harness/h_block_e2e.c, command "peer") ----
+   blkpeer <b1|b2> <len> <seed> <maxszx> <item>...  item = num/m/szx/size/off/len/tag
+   b1: the lg_srcv table model (blk_srv_recv, Request-Tags); b2: blk_cli_recv (ETags) *)
+let sub l off len =
+  let rec drop n l = if n <= 0 then l else match l with [] -> [] | _ :: t -> drop (n - 1) t in
+  let rec take n l = if n <= 0 then [] else match l with [] -> [] | x :: t -> x :: take (n - 1) t in
+  take len (drop off l)
+
+let blkpeer toks =
+  match toks with
+  | dir :: len :: seed :: mx :: items ->
+      let blen = int_of_string len in
+      let bodies = Hashtbl.create 8 in
+      let body_t t =
+        match Hashtbl.find_opt bodies t with
+        | Some b -> b
+        | None -> let b = body_of blen (int_of_string seed + t) in Hashtbl.add bodies t b; b in
+      let junk _ = z_of_int (-1) in
+      let tab = ref [] and cst = ref { cr_etag = None; cr_st = None } in
+      let show t o =
+        match o with
+        | BoDeliver d ->
+            if List.exists (fun x -> int_of_z x < 0) d then "D?"
+            else Printf.sprintf "D:%d:%08x:%s" (List.length d) (fnv d) (if d = body_t t then "=" else "!")
+        | BoPass -> "P"
+        | o -> out_letter o in
+      let res = List.map (fun it ->
+          match String.split_on_char '/' it with
+          | [n; m; s; sz; off; ln; tag] ->
+              let off = max 0 (min blen (int_of_string off)) in
+              let ln = max 0 (min (blen - off) (int_of_string ln)) in
+              (* tag = "-" | "<n>" | "<n>u" : Request-Tag / ETag; suffix u = the second resource *)
+              let res_u = String.length tag > 0 && tag.[String.length tag - 1] = 'u' in
+              let tag = if res_u then String.sub tag 0 (String.length tag - 1) else tag in
+              let tag = if tag = "" then "-" else tag in
+              let ti = (if tag = "-" then 0 else int_of_string tag) + (if res_u then 50 else 0) in
+              let a = { ba_num = zi n; ba_m = zi m; ba_szx = zi s;
+                        ba_size = (if sz = "-" then None else Some (zi sz));
+                        ba_data = sub (body_t ti) off ln } in
+              let tg = if tag = "-" then None else Some (zi tag) in
+              if dir = "b1" then begin
+                let (t', o) = blk_srv_recv junk (zi mx) !tab { rq_res = z_of_int (if res_u then 2 else 1); rq_rtag = tg; rq_arr = a } in
+                tab := t';
+                (match o with
+                 | BoPass -> Printf.sprintf "P:%d:%08x" ln (fnv a.ba_data)
+                 | o -> show ti o)
+              end else begin
+                let ((c', o), _) = blk_cli_recv junk !cst { rs_etag = tg; rs_arr = a } in
+                cst := c';
+                (match o with
+                 | BoPass -> Printf.sprintf "P:%d:%08x" ln (fnv a.ba_data)
+                 | o -> show ti o)
+              end
+          | _ -> "BADITEM") items in
+      String.concat " " res ^ " END"
+  | _ -> failwith "blkpeer args"
+
+let () = register "blkpeer" blkpeer
+
+(* blktimed <wait> <t0> { P<t> | C<t> }... : the client-side expiry timer; prints the time of
+   the check that deletes the state, or "alive" *)
+let blktimed toks =
+  match toks with
+  | wait :: t0 :: evs ->
+      let w = zi wait in
+      let rec go alive last l =
+        match l with
+        | [] -> "alive"
+        | e :: tl ->
+            let t = String.sub e 1 (String.length e - 1) in
+            let ev = if e.[0] = 'P' then TvProgress (zi t) else TvCheck (zi t) in
+            let (alive', last') = blk_timed_run w alive last [ev] in
+            if alive && not alive' then "expired@" ^ t else go alive' last' tl in
+      go true (zi t0) evs
+  | _ -> failwith "blktimed args"
+
+let () = register "blktimed" blktimed
